@@ -16,14 +16,16 @@ def handler (mode : String) (line : String) : String :=
       | some p => if p.ext then "(unmodelled-op)" else toStr (obsT (observe p.case (run p.case)))
       | none => "(bad-case)"
   | "oracle" =>
-      match parseMany line with
-      | some [c, o] =>
-          match caseOf? c with
+      match line.splitOn "\t" with
+      | [c, o] =>
+          match (parse c).bind caseOf? with
           | some p =>
-              match obsOf? o with
+              match (parse o).bind obsOf? with
               | some obs => verdictStr (Spec.check p.case obs)
               | none => "fail idx=0 pos=0 clause=unparsable-observation"
-          | none => "(bad-case)"
+          | none =>
+              -- an ill-formed case must be refused by the implementation harness as well
+              if o == "(bad-case)" then "ok" else "fail idx=0 pos=0 clause=bad-case-accepted"
       | _ => "(bad-line)"
   | _ => "(bad-mode)"
 
